@@ -55,12 +55,12 @@ def cases(tier):
         for al, be in itertools.product([0.0, 1.0, -0.3, 0, 1, 3], [0.5, -2.0, -0.25]):      # ints and floats: both are numbers
             yield {'m': 'exciton', 'n': n, 'alpha': al, 'beta': be}
     for d in range(2, 9):
-        for J, h in itertools.product([1.0, -0.5, 0.0], [0.0, 0.3, -2.0]):
+        for J, h in list(itertools.product([1.0, -0.5, 0.0], [0.0, 0.3, -2.0])) + [(1e-9, 0.0), (-3e-10, 0.0), (1e-9, 2e-9)]:
             yield {'m': 'ising', 'd': d, 'J': J, 'h': h}
     for d in ([2, 3, 4, 5] if q else [2, 3, 4, 5, 6]):
         yield {'m': 'fpu', 'd': d}
     for d in (1, 2, 3, 4, 5):
-        for wk in ('lin', 'zero', 'neg'):
+        for wk in ('lin', 'zero', 'neg', 'intarray', 'intlist'):
             yield {'m': 'kuramoto', 'd': d, 'w': wk}
     for dim in (1, 2, 3):
         for level in (1, 2, 3):
@@ -258,7 +258,8 @@ def run_case(case, seed):
                 for idx in itertools.product([0, 1], repeat=d):
                     s = [1 - 2 * i for i in idx]
                     want[idx] = -J * sum(s[i] * s[i + 1] for i in range(d - 1)) - h * sum(s)
-                r.close(key + ':energy-table', E, want, 1e-12)
+                sc_ = max(abs(J), abs(h))
+                r.close(key + ':energy-table', E / sc_ if 0 < sc_ < 1e-6 else E, want / sc_ if 0 < sc_ < 1e-6 else want, 1e-12)       # tiny couplings: relative to their own size
         elif m == 'fpu':
             d = case['d']
             T = mdl.fpu_coefficients(d)
@@ -279,8 +280,9 @@ def run_case(case, seed):
                 r.true(key + ':rhs-on-unisolvent-grid', bad <= 1e-11, 'max deviation %.3e from the FPU right-hand side' % bad)
         elif m == 'kuramoto':
             d = case['d']
-            w = {'lin': np.linspace(-5, 5, d), 'zero': np.zeros(d), 'neg': -1.0 - np.arange(d)}[case['w']]
-            T = mdl.kuramoto_coefficients(d, np.array(w))
+            w = {'lin': np.linspace(-5, 5, d), 'zero': np.zeros(d), 'neg': -1.0 - np.arange(d), 'intarray': np.arange(1, d + 1), 'intlist': np.arange(2, d + 2)}[case['w']]
+            # natural frequencies may be integers (an integer array, a list of Python ints): the coefficients are real numbers
+            T = mdl.kuramoto_coefficients(d, [int(v_) for v_ in w] if case['w'] == 'intlist' else np.array(w))
             mp = meta_problem(T)
             if r.true(key + ':meta', mp is None, mp) and r.true(key + ':dims', list(T.row_dims) == [d + 1, d + 1, d], 'dims %s' % T.row_dims):
                 X = dn(T).reshape(d + 1, d + 1, d)
